@@ -38,6 +38,7 @@ NCHUNK = 6
 
 def floors(tier):
     return {'crash-points': 60, 'followups:judged': 120, 'raise-points': 20,
+            'double-crash-points': 15,
             'distinct_nontrivial': 30}
 
 
@@ -51,6 +52,9 @@ def cases(tier, seed):
                 for c in range(nchunk):
                     yield {'scenario': s, 'backend': backend, 'pkgconf': pkgconf,
                            'chunk': c, 'nchunk': nchunk,
+                           'double': ('all' if tier == 'thorough' else
+                                      'window' if backend == 'make' else None)
+                           if s in ('new-file', 'removed-file') else None,
                            'partial': tier == 'thorough', 'raise_kinds':
                            ['ENOSPC', 'RuntimeError', 'KeyboardInterrupt']
                            if tier == 'thorough' else ['ENOSPC', 'KeyboardInterrupt']}
@@ -139,13 +143,14 @@ class World:
                 out[n] = None
         return out
 
-    def save(self):
-        shutil.rmtree(self.snap, ignore_errors=True)
-        shutil.copytree(self.root, self.snap, symlinks=True)
+    def save(self, snap=None):
+        snap = snap or self.snap
+        shutil.rmtree(snap, ignore_errors=True)
+        shutil.copytree(self.root, snap, symlinks=True)
 
-    def restore(self):
+    def restore(self, snap=None):
         shutil.rmtree(self.root, ignore_errors=True)
-        shutil.copytree(self.snap, self.root, symlinks=True)
+        shutil.copytree(snap or self.snap, self.root, symlinks=True)
         try:
             os.remove(self.trace)
         except FileNotFoundError:
@@ -190,6 +195,7 @@ class World:
     def cleanup(self):
         core.rmtree(self.root)
         shutil.rmtree(self.snap, ignore_errors=True)
+        shutil.rmtree(self.snap + '2', ignore_errors=True)
         try:
             os.remove(self.trace)
         except FileNotFoundError:
@@ -300,13 +306,15 @@ def run_case(case):
                         cause = 'find-deps-truncated'
                     else:
                         cause = 'state:primary=%(primary)s,cache=%(find_cache)s,deps=%(find_deps)s' % st
-                    res.violate((backend, 'silent-stale', cause),
+                    res.violate((backend, 'silent-stale', cause) +
+                                (('after-two-faults',) if label.startswith('double') else ()),
                                 dict(wb, kind=label, fault=fault_desc, state_after_fault=st,
                                      stale_files=state, followup=attempt,
                                      output=out[-400:], half_written=half))
-                    return
+                    return st
                 if rc == 0:
-                    return      # converged to the uninterrupted state
+                    return st   # converged to the uninterrupted state
+            return st
 
         # ---- crash points of this chunk
         ks = [k for k in range(1, N + 1) if k % case['nchunk'] == case['chunk']]
@@ -332,8 +340,34 @@ def run_case(case):
                 res.evaluations += 1
                 desc = [ev['op'], ev['phase'], os.path.basename(rel)] + \
                     (['partial:%d' % part] if part is not None else [])
-                follow_ups('crash', desc, [scenario, backend, case['pkgconf']] + desc,
-                           ev['op'] in ('open', 'close'))
+                st = follow_ups('crash', desc, [scenario, backend, case['pkgconf']] + desc,
+                                ev['op'] in ('open', 'close'))
+                # ---- a second fault in the next attempt (sequences of two faults)
+                changed = st and (st['primary'] != 'old' or st['find_cache'] not in ('old',)
+                                  or st['find_deps'] not in ('old',))
+                window = st and st['primary'] == 'old' and st['find_cache'] == 'new'
+                if part is None and not fresh and case.get('double') and \
+                   (window or (changed and case['double'] == 'all')):
+                    w.restore()
+                    interrupted_run(w.env(CRASH_AT=k))
+                    w.save(w.snap + '2')
+                    rc2, out2 = w.backend_run(env=w.env(RAISE_AT='0:count'))
+                    b2 = [e for e in w.read_trace() if isinstance(e.get('n'), int)]
+                    k2s = [e['n'] for e in b2
+                           if case['double'] == 'all' or
+                           (e['phase'] == 'before' and e['op'] != 'close')]
+                    for k2 in k2s:
+                        e2 = next(e for e in b2 if e['n'] == k2)
+                        w.restore(w.snap + '2')
+                        w.backend_run(env=w.env(CRASH_AT=k2))
+                        if not any(e.get('crash') for e in w.read_trace()):
+                            continue
+                        res.ev('double-crash-points')
+                        res.evaluations += 1
+                        d2 = desc + ['then', e2['op'], e2['phase'],
+                                     os.path.basename(e2['path'])]
+                        follow_ups('double-crash', d2,
+                                   [scenario, backend, case['pkgconf']] + d2, True)
         # ---- exception failpoints of this chunk
         hs = [h for h in range(1, H + 1) if h % case['nchunk'] == case['chunk']]
         for h in hs:
